@@ -320,6 +320,12 @@ def install():
     V.PROC_GLOBALS[:] = [(sbase.experiment, "CURRENT"), (xws.Workspace, "CURRENT"), (xtokens.CounterToken, "TOKENS"),
                          (xlocal.LocalConnector, "INSTANCE"), (xipc.IPCom, "INSTANCE"), (tg.Env, "_instance")]
     audit()
+    # executions collect their own garbage at tear-down (deterministically); nothing is collected in between, and the
+    # objects that exist now (modules, classes) are taken out of the collector's sight
+    import gc
+    gc.collect()
+    gc.freeze()
+    gc.disable()
 
 
 def audit():
